@@ -49,7 +49,7 @@ func (g *wktGen) wexpr(e ast.Expr) string {
 			return "deg2rad"
 		case "longlat":
 			return "(s \"longlat\")"
-		case "val", "convert", "filename", "fname":
+		case "val", "convert", "filename", "fname", "secData":
 			return t.Name
 		}
 		if v, ok := g.consts[t.Name]; ok {
@@ -92,6 +92,13 @@ func (g *wktGen) wexpr(e ast.Expr) string {
 		}
 		if lok && lo.Kind == token.INT && g.src(t.High) == "len("+g.src(t.X)+")" {
 			return "(" + g.wexpr(t.X) + ".drop " + lo.Value + ")"
+		}
+	case *ast.IndexExpr:
+		// strings.Split(x, "c")[0]: Split never returns an empty list
+		if c, ok := t.X.(*ast.CallExpr); ok && g.src(c.Fun) == "strings.Split" && len(c.Args) == 2 && g.src(t.Index) == "0" {
+			if sep, err := strconv.Unquote(g.src(c.Args[1])); err == nil && len(sep) == 1 && sep != "'" && sep != "\\" {
+				return "((splitOn '" + sep + "' " + g.wexpr(c.Args[0]) + ").headD [])"
+			}
 		}
 	case *ast.ParenExpr:
 		return "(" + g.wexpr(t.X) + ")"
@@ -140,6 +147,13 @@ func (g *wktGen) wexpr(e ast.Expr) string {
 					return "(abs " + g.wexpr(t.Args[0]) + ")"
 				case pk.Name == "math" && sel.Sel.Name == "Sqrt" && len(t.Args) == 1:
 					return "(sqrt " + g.wexpr(t.Args[0]) + ")"
+				case pk.Name == "strings" && sel.Sel.Name == "Trim" && len(t.Args) == 2:
+					switch g.src(t.Args[1]) {
+					case `"\""`:
+						return "(trim isQuote " + g.wexpr(t.Args[0]) + ")"
+					case `"\" "`:
+						return "(trim isQuoteOrSpace " + g.wexpr(t.Args[0]) + ")"
+					}
 				case pk.Name == "strings" && sel.Sel.Name == "HasSuffix" && len(t.Args) == 2:
 					return "(hasSuffix " + g.wexpr(t.Args[0]) + " " + g.wexpr(t.Args[1]) + ")"
 				case pk.Name == "strings" && sel.Sel.Name == "Contains" && len(t.Args) == 2:
@@ -391,6 +405,18 @@ func wktGenOut(repo string) string {
 	}
 	b.WriteString("/-- `(*SR).datumRename`, translated (the slice expressions `s[0:2]`, `s[2:len(s)]` as `take` / `drop`: they panic on a code shorter than 2 bytes) -/\n")
 	fmt.Fprintf(&b, "def genDatumRename (%s : SR α) : SR α :=\n%s\n\n", g.recv, body)
+
+	// ---- parseWKTProjection
+	g.recv = "sr"
+	body = "untranslated_missing_parseWKTProjection"
+	if fd := funcs["parseWKTProjection"]; fd != nil {
+		if fd.Recv != nil && len(fd.Recv.List) == 1 && len(fd.Recv.List[0].Names) == 1 {
+			g.recv = fd.Recv.List[0].Names[0].Name
+		}
+		body = g.block(fd.Body.List, "  ")
+	}
+	b.WriteString("/-- `(*SR).parseWKTProjection`, translated -/\n")
+	fmt.Fprintf(&b, "def genWktProjection (%s : SR α) (secData : Str) : SR α :=\n%s\n\n", g.recv, body)
 
 	// ---- parseWKTUnit: the statements that use the conversion factor
 	body = "untranslated_missing_parseWKTUnit"
